@@ -191,6 +191,8 @@ class Checker:
         violations = self.triage(failed) if failed else []
         violations += self.finish_bounded(bounded_procs)
         known = self.known_findings()
+        if self.tier == 'thorough' and not getattr(self, 'no_evidence', False) and not violations:
+            self.mutation_run()
         self.write_evidence(real, canary_report, vac, violations, known)
         if violations:
             return 1
@@ -199,6 +201,18 @@ class Checker:
             # informational only: a code change can legitimately make a deliberately false clause true
             self.say('NOTE: canary clause now provable: ' + ', '.join(bad_canaries))
         return 0
+
+    def mutation_run(self):
+        """thorough tier: hand-picked property-breaking edits on a scratch copy (tools_mutants.py); the kill table goes
+        into the evidence and NEVER changes the exit code (survivors are a to-do for the contracts, or equivalent edits)"""
+        try:
+            p = subprocess.run(['python3', os.path.join(VERIF, 'tools_mutants.py'), self.prop, '--limit',
+                                os.environ.get('PYVC_MUTANT_LIMIT', '8')], cwd=VERIF, capture_output=True, text=True,
+                               timeout=3 * 3600)
+            table = [json.loads(l) for l in p.stdout.splitlines() if l.startswith('{')]
+        except Exception as err:
+            table = [{'error': repr(err)}]
+        self.extra_evidence = dict(getattr(self, 'extra_evidence', None) or {}, mutation_run=table)
 
     # ------------------------------------------------------------------ bounded stand-ins
     def start_bounded(self):
